@@ -65,6 +65,28 @@ MinH2(fn) == 3 + (IF IsRsp(fn) THEN 1 ELSE 0) + (IF IsGroup(fn) THEN 1 ELSE IF I
 MsgShortSet == UNION { { [id |-> "Message/short/" \o ToString(fn) \o "/" \o ToString(n), prop |-> "C07", kind |-> "decode", layer |-> "Message",
                          class |-> "short-valid-checksums", bytes |-> ShortMsg(fn, n), exp |-> [err |-> TRUE]] : n \in 0..(MinH2(fn) - 1) }
                        : fn \in {6, 7, 44, 45, 46, 47} }
+\* responses that carry nothing but a (non-normal) completion code, as a BMC refusing a command sends them: both checksums
+\* are still checked (C07); and the same cut short of their body code / enterprise number: a value or an error, no crash (C05)
+CodeOnly(fn, cc) == [MBase(fn, 6) EXCEPT !.cc = cc, !.data = <<>>]
+MsgCodeOnly ==
+  UNION { LET b == MsgEnc(CodeOnly(fn, cc)) IN
+          { [id |-> "Message/codeonly/cks2/" \o ToString(fn) \o "/" \o ToString(cc) \o "/" \o ToString(d), prop |-> "C07", kind |-> "decode", layer |-> "Message",
+             class |-> "code-only-checksum2-wrong", bytes |-> [b EXCEPT ![Len(b)] = (@ + d) % 256], exp |-> [err |-> TRUE]] : d \in 1..255 }
+          \cup { [id |-> "Message/codeonly/cks1/" \o ToString(fn) \o "/" \o ToString(cc) \o "/" \o ToString(d), prop |-> "C07", kind |-> "decode", layer |-> "Message",
+                  class |-> "code-only-checksum1-wrong", bytes |-> [b EXCEPT ![3] = (@ + d) % 256], exp |-> [err |-> TRUE]] : d \in {1, 2, 128, 255} }
+          \cup { [id |-> "Message/codeonly/ok/" \o ToString(fn) \o "/" \o ToString(cc), prop |-> "C08", kind |-> "decode", layer |-> "Message", class |-> "code-only",
+                  bytes |-> b, exp |-> [err |-> FALSE, value |-> MsgValue(CodeOnly(fn, cc)), payload |-> <<>>]] }
+          : fn \in {1, 7, 11, 45, 47}, cc \in {193, 203, 212, 255, 1} }
+  \cup UNION { { LET h1 == <<129, fn * 4>>  h2 == Take(<<32, 4, 1, cc, 220, 2, 3>>, n) IN
+                 [id |-> "Message/codecut/" \o ToString(fn) \o "/" \o ToString(cc) \o "/" \o ToString(n), prop |-> "C05", kind |-> "decode", layer |-> "Message",
+                  class |-> "cut-after-completion-code", bytes |-> h1 \o <<Checksum(h1)>> \o h2 \o <<Checksum(h2)>>, exp |-> [any |-> TRUE]] : n \in 0..7 }
+               : fn \in {7, 45, 47}, cc \in {0, 1, 193, 255} }
+\* a message value that decoded another class before (OEM, then group extension, then ordinary, in every order) must still
+\* decode to the specification's record (C08 over histories)
+MsgAfter ==
+  { LET ra == MBase(fa, 9)  rb == MBase(fb, 11) IN
+    [id |-> "Message/after/" \o ToString(fa) \o "->" \o ToString(fb), prop |-> "C08", kind |-> "reuse", layer |-> "Message", class |-> "after-fn" \o ToString(fa),
+     first |-> MsgEnc(ra), second |-> MsgEnc(rb), exp |-> [err |-> FALSE, value |-> MsgValue(rb)]] : fa \in {6, 7, 44, 45, 46, 47}, fb \in {6, 7, 44, 45, 46, 47} }
 \* reuse: every ordered pair of message classes (C17)
 MsgReuse ==
   LET mem == { <<"fn" \o ToString(fn), MsgEnc(MBase(fn, 9))>> : fn \in {6, 7, 44, 45, 46, 47} } IN
@@ -223,7 +245,7 @@ AesSeqVectors ==
   { [id |-> "AES/seq/" \o ToString(q) \o "/" \o ToString(k), prop |-> "C08", kind |-> "aesseq", layer |-> "AES128CBC", class |-> "decode-sequence",
      key |-> RBytes(k + 210, 16), packets |-> [i \in 1..Len(q) |-> AesPacket(RBytes(k + 210, 16), k * 10 + i, q[i])]] : q \in LenSeqs, k \in 1..2 }
 Vectors == CASE Family = "aes" -> AesVectors \cup AesSeqVectors
-             [] Family = "message" -> MsgVectors \cup MsgCorrupt \cup MsgShortSet \cup MsgReuse
+             [] Family = "message" -> MsgVectors \cup MsgCorrupt \cup MsgShortSet \cup MsgReuse \cup MsgCodeOnly \cup MsgAfter
              [] Family = "wrapper" -> V2Vectors \cup V2LenCorrupt \cup V1Vectors \cup V1Reuse \cup V2Prefixes \cup V2SeqVectors
              [] Family = "setup" -> Rakp1Vectors \cup SetupVectors
 ASSUME \A v \in Vectors : PrintT(<<"SCRIPT", ToJson(v)>>)
